@@ -21,6 +21,10 @@ bdag = z3.Function('bdag', BoxS, BoxS)
 ob_l = z3.Function('ob_l', Ob, Ob)
 ob_r = z3.Function('ob_r', Ob, Ob)
 
+ob_name = z3.Function('ob_name', Ob, ValS)      # the two fields a rigid.Ob is determined by (rigid.Ob.__eq__)
+ob_z = z3.Function('ob_z', Ob, IntS)
+mk_ob = z3.Function('mk_ob', ValS, IntS, Ob)
+
 tyl = z3.Function('ty_l', TyS, TyS)      # left / right adjoint of a rigid type (reverses the order)
 tyr = z3.Function('ty_r', TyS, TyS)
 
